@@ -92,8 +92,7 @@ def obs_f0(tbl, cromermann, keyconv=int):
     """f0 through Xray.f0 for every element and ion at three Q; 'X' when no entry"""
     out = {}
     for el in tbl:
-        if el.number == 0:
-            continue
+        # (element 0, the neutron, has no entry: 'n' is not 'N')
         for q in (0,) + tuple(el.ions):
             atom = el if q == 0 else el.ion[keyconv(q)]
             out[(el.number, q)] = [P.observe(lambda: float(atom.xray.f0(Q))) for Q in (0.0, 2.5, 80.0)]
@@ -435,7 +434,7 @@ def check_cm_entries(run: Run, exp, src, cromermann):
     names = list(exp.f0)
     lines = ["anc_text cm " + P.hexs(src["f0"]), "cm_load"] + ["cm_q " + P.hexs(n) for n in names]
     probes = []
-    for n in names + ["Na+", "Cl-", "Ca2+", "O2-", "Fe", "Fe3+", "H1-", "Xx", "Cval", "Siva"]:
+    for n in names + ["Na+", "Cl-", "Ca2+", "O2-", "Fe", "Fe3+", "H1-", "Xx", "Cval", "Siva", "n", "fe", "FE", "h", "cL"]:
         for ch in (None, 0, 1, 2, -1, -2, 3, 12):
             probes.append((n, ch))
     lines += ["cm_key %s %s" % (P.hexs(n), "N" if ch is None else ch) for n, ch in probes]
